@@ -84,8 +84,12 @@ var solvers = map[string]solverSpec{
 }
 
 func runSolver(name, file string, timeout, seed int) (string, string, float64) {
+	return runSolverCtx(context.Background(), name, file, timeout, seed)
+}
+
+func runSolverCtx(parent context.Context, name, file string, timeout, seed int) (string, string, float64) {
 	sp := solvers[name]
-	ctx, cancel := context.WithTimeout(context.Background(), time.Duration(timeout+5)*time.Second)
+	ctx, cancel := context.WithTimeout(parent, time.Duration(timeout+5)*time.Second)
 	defer cancel()
 	cmd := exec.CommandContext(ctx, sp.name, sp.args(file, timeout, seed)...)
 	var out bytes.Buffer
@@ -180,14 +184,53 @@ func solvePart(fe *FnEnc, o *Obl, part int, dir string, timeout, seed int, escal
 	// z3-new gives up on (and vice versa); cvc5 last
 	full := timeout
 	timeout = max(2, full/2)
-	done := try("z3-new/ematch")
+	// first stage: both z3 versions in E-matching mode race (each proves quantified goals the other gives up on);
+	// the first definite answer wins
+	done := func() bool {
+		type ans struct {
+			s, st, out string
+			secs       float64
+		}
+		ch := make(chan ans, 2)
+		racers := []string{"z3-new/ematch", "z3/ematch"}
+		t1 := full
+		rctx, rcancel := context.WithCancel(context.Background())
+		defer rcancel()
+		for _, s := range racers {
+			go func(s string) {
+				st, out, secs := runSolverCtx(rctx, s, file, t1, seed)
+				ch <- ans{s, st, out, secs}
+			}(s)
+		}
+		decided := false
+		for range racers {
+			a := <-ch
+			res.Tried = append(res.Tried, fmt.Sprintf("%s:%s:%.1fs", a.s, a.st, a.secs))
+			if decided {
+				continue
+			}
+			if a.secs > res.Secs {
+				res.Secs = a.secs
+			}
+			if res.Status == "" || a.st == "unsat" || a.st == "sat" {
+				res.Status, res.Solver, res.Output = a.st, a.s, a.out
+			}
+			if o.Cover {
+				decided = a.st == "sat" || a.st == "unsat"
+			} else {
+				decided = a.st == want || a.st == "sat"
+			}
+			if decided {
+				// do not wait for the slower one
+				rcancel()
+				break
+			}
+		}
+		return decided
+	}()
 	if !done {
 		timeout = max(2, full/2)
 		done = try("z3-new")
-	}
-	if !done {
-		timeout = full
-		done = try("z3/ematch")
 	}
 	if !done && escalate {
 		if !try("z3") {
